@@ -7,7 +7,7 @@ from props._generic import run_property, replay_with_driver
 
 LEVEL = "other"
 KEYS = ["normalize_cutoff", "_fva_step", "find_blocked_reactions"]
-FASTCC_KEYS = ["_find_sparse_mode", "_flip_coefficients", "fastcc"]
+FASTCC_KEYS = ["_find_sparse_mode", "_flip_coefficients", "Reaction.reversibility@getter", "fastcc"]
 
 
 def run(rep):
@@ -39,7 +39,8 @@ def run(rep):
         "_flip_coefficients (listed reactions pairwise different, rows / auxiliaries exist): in the row of every listed reaction every "
         "coefficient except the auxiliary's is negated, every other row is untouched (loop invariant), then EVERY objective coefficient is "
         "negated and the direction is not touched; glue lemma over that post-condition: applying it twice is the identity. "
-        "fastcc, the skeleton (helpers applied by these contracts at their call sites): works on the ARGUMENT model and only inside "
+        "fastcc, the skeleton (helpers applied by these contracts at their call sites; Reaction.reversibility proved to be lb < 0 < ub and "
+        "used as that term in the filter of the irreversible list): works on the ARGUMENT model and only inside "
         "contexts - every helper call and the one model.optimize(min) (the builtin min is not a documented sense: direction stays max) "
         "are made with exactly one own context open, the stack is as at entry between iterations, at model.copy(), on return and when "
         "a solve raises; loop invariant: the kept list is one list that only grows, holds reactions of the model, each answered by some "
